@@ -1,5 +1,6 @@
 """C09 — codecs round-trip every input and honour their size bounds."""
 from e2 import E2
+from e1 import E1
 FILES = ['src/compression/snappy.c', 'src/compression/lz4.c', 'src/compression/gzip.c', 'src/compression/zstd.c', 'src/writer/page_writer.c']
 BUDGET = {'quick': 1500, 'thorough': 3600}
 H = 'harness/e2/c09_codec.c'
@@ -32,4 +33,10 @@ def obligations(tier):
         o.append(ob(1, n, alpha=2, timeout=900 if q else 3000))
     for n in ([4, 12] if q else [0, 1, 4, 8, 12]):
         o.append(ob(1, n, mode=3))
+    # emission lemmas (E1/CBMC): every (offset <= window limit of the source, len) is encoded faithfully — covers match distances
+    # the bounded round trips cannot reach (inputs > 64 KiB are otherwise outside the bound)
+    o.append(E1('lemma/snappy-emit-copy', 'harness/e1/c09_emit.c', [], ['-DMODE=1', '-DLMAX=200'], unwind=8, timeout=300, includes_source=['src/compression/snappy.c'],
+                stub_realloc=False, functions=['snappy_emit_copy'], bounds='every offset in [1, SNAPPY_MAX_OFFSET] and every match length 4..200 (symbolic)'))
+    o.append(E1('lemma/snappy-emit-literal', 'harness/e1/c09_emit.c', [], ['-DMODE=2'], unwind=72, timeout=300, includes_source=['src/compression/snappy.c'],
+                stub_realloc=False, functions=['snappy_emit_literal'], bounds='every literal of 1..70 symbolic bytes'))
     return o
